@@ -644,6 +644,8 @@ Spec == Init /\ [][Next]_vars
 FairSpec == Spec /\ \A t \in Threads : WF_vars(Step(t))
 
 (* ================================ properties ================================ *)
+(* the lane invariants of Lane.tla (C01 - C06) are kept: the extension must not disturb the lane machine;
+   the C17 properties follow below *)
 AllSubmitted == \A c \in Clients : ip[c] > Len(Prog[c])
 Quiescent == (\A t \in Threads : pc[t] = "idle") /\ root = <<>>
 IdleModQos(s) == [s EXCEPT !.qos = 0, !.dirty = FALSE] = Idle0
